@@ -258,14 +258,28 @@ func (d *diff) getRange(r Range) (rr RangeResult) {
 			return
 		}
 	}
+	var hasher *blake3.Hasher
+	if rng == nil {
+		// no precalculated range: hash the elements, so an empty range is the only one without a hash
+		hasher = hashersPool.Get().(*blake3.Hasher)
+		defer hashersPool.Put(hasher)
+		hasher.Reset()
+	}
 	el := d.sl.Find(&element{hash: r.From})
 	rr.Elements = make([]Element, 0, d.divideFactor)
 	for el != nil && el.Key().(*element).hash <= r.To {
 		elem := el.Key().(*element).Element
 		el = el.Next()
 		rr.Elements = append(rr.Elements, elem)
+		if hasher != nil {
+			hasher.WriteString(elem.Id)
+			hasher.WriteString(elem.Head)
+		}
 	}
 	rr.Count = len(rr.Elements)
+	if hasher != nil && rr.Count > 0 {
+		rr.Hash = hasher.Sum(nil)
+	}
 	return
 }
 
